@@ -1278,13 +1278,14 @@ def leg_flavours(progs, flavours, jobs=16):
 # a failing mmap(2) (C13 / C03): the writers fall back to plain writes
 # ---------------------------------------------------------------------------------------------
 
-def leg_mmap_failure(progs, flavours, monitors, jobs=8):
+def leg_mmap_failure(progs, flavours, monitors, jobs=8, fail_env="FAIL_SHARED_MMAP"):
     """Every program runs with an LD_PRELOAD shim that makes each file-backed MAP_SHARED mapping fail
     (ENODEV), i.e. on the writers' fall-back path after `MmapMut::map_mut` failed.  The same monitors
     as without the fault judge the outcome (declared sizes honoured, content area valid, read-back)."""
     failures, samples = [], []
     kinds = set()
-    wrapper = ["env", f"LD_PRELOAD={C.build_shim()}", "FAIL_SHARED_MMAP=1"]
+    wrapper = ["env", f"LD_PRELOAD={C.build_shim()}", f"{fail_env}=1"]
+    what = "mmap(2)" if fail_env == "FAIL_SHARED_MMAP" else "msync(2)"
     tasks = [(p, fl) for p in progs for fl in flavours[:1]]
 
     def one(t):
@@ -1297,14 +1298,14 @@ def leg_mmap_failure(progs, flavours, monitors, jobs=8):
         for m in monitors:
             try:
                 for f in m(rr):
-                    f.detail = "with failing mmap(2): " + f.detail
-                    f.replay_text = "# run with LD_PRELOAD=harness/target/failmmap.so FAIL_SHARED_MMAP=1\n" + rr.prog.text()
+                    f.detail = f"with failing {what}: " + f.detail
+                    f.replay_text = f"# run with LD_PRELOAD=harness/target/failmmap.so {fail_env}=1\n" + rr.prog.text()
                     failures.append(f)
             except KeyError:
                 pass
         kinds.add(E.signature(rr))
         if len(samples) < 2:
-            samples.append({"binary": rr.flavour, "ops": rr.prog.ops[:4], "impl": [l[:100] for l in rr.impl[:4]], "mmap": "fails"})
+            samples.append({"binary": rr.flavour, "ops": rr.prog.ops[:4], "impl": [l[:100] for l in rr.impl[:4]], what: "fails"})
     return {"failures": failures, "disagreements": [], "evaluations": len(results), "distinct_nontrivial": len(kinds),
             "samples": samples, "mmap_failure_runs": len(results)}
 
